@@ -21,6 +21,23 @@ CHECKS = {
         technique="Coq proof (invariant over all runs of the loop model) + differential correspondence + trace oracle", ref="DESIGN.md 4 (C09)"),
 }
 
+SEQ_TECH = "Coq proof (step/component theorems on the loop model) + differential correspondence on generated histories + trace oracle"
+def seq(text, ref, note_extra=""):
+    return dict(text=text, note=SEQ_NOTE + " " + note_extra, technique=SEQ_TECH, ref=ref)
+
+CHECKS.update({
+ "C01": seq("Proved: every built-in source kind ignores an event whose token is not one it currently holds (no callback), the poller reports only registered keys, keys decode injectively, events for vacant or re-versioned slots are dropped untouched, expired-timer events are due wheel entries. PARTIAL: the whole-history attribution claim is not one theorem; it is decided per run by the model correspondence (~1200 histories with in-callback remove/disable/insert and slot reuse) and by an oracle on the real traces (callback only for inserted+enabled handle, fd really ready at poll time, ping/message really sent).", "DESIGN.md 4 (C01)"),
+ "C02": seq("Proved on the environment/loop model: a ready level-triggered entry is reported by every wait; a one-shot entry is disarmed by its report and silent until re-armed; a queued ready edge entry is reported; after a poll no due timer stays in the wheel; an event whose slot resolves reaches that source. PARTIAL: 'the callback was invoked in that dispatch' for whole histories is decided by correspondence and by an oracle that recomputes pending causes (fd counters, pings, queued messages, due timers) at each poll of the real run.", "DESIGN.md 4 (C02)", "The epoll rules themselves are assumed (validated against the kernel by the correspondence runs incl. /proc epoll dumps)."),
+ "C05": seq("Proved: the expiry loop returns only due entries (never early), in non-decreasing deadline order, leaves nothing due behind; a timer reacts only to its current token; an unregistered timer is silent. Two repairs made (fix: commits F10 double enable, F14 update on disabled timer). Known findings F4 (Err drops the batch) and F5 (re-arm while the expiry is in the batch; C05_F5_refuted is a vm_compute witness in the model) print KNOWN-FINDING. PARTIAL: exactly-once-per-arming over whole histories is decided by correspondence + oracle (deadline bookkeeping per timer, wheel residue from verif_stats).", "DESIGN.md 4 (C05)"),
+ "C06": seq("Proved: right after remove() the token no longer resolves; an unresolved token makes enable/disable/update return InvalidToken and remove a no-op with NO other state change; events for a vacated/re-versioned slot are dropped; slot reuse changes the generation; nothing stays marked running after processing. PARTIAL: 'permanently dead under <65536 reuses' and exactly-once release are decided by correspondence + oracle (callback after removal, token results, drop counters).", "DESIGN.md 4 (C06)"),
+ "C07": seq("Proved: after a completed disable()/processed PostAction::Disable the source holds no token and every event aimed at it - including one already in the current batch - is ignored without callback; self-disable is deferred; unregistering touches no other fd's entry. One repair (fix: F14). PARTIAL: silence over the whole gap until enable() and delivery of surviving readiness after enable() are decided by correspondence + oracle.", "DESIGN.md 4 (C07)"),
+ "C08": seq("Proved for every state (in particular inside callbacks and idles): an operation panics only if it is a documented exclusion (enable/as_source_mut of the running source, into_source_inner while registered, cancelling the running idle) or exhausts a resource (65535 sub-sources, 2^32 slots); self-directed update/disable are deferred, others take effect at once; no operation changes the borrowed-dispatcher mark. PARTIAL: absence of unreachable!() in the lifecycle loops over whole histories rests on correspondence + oracle (one such panic was found and repaired: fix F15).", "DESIGN.md 4 (C08)"),
+ "C13": seq("Proved: insert_idle only appends to the queue and nothing else touches it; the idle phase runs the list taken before it started, head first, skipping cancelled entries; idles inserted during the phase stay queued for the next dispatch. PARTIAL: exactly-once/ordering relative to source callbacks over whole histories via correspondence + oracle.", "DESIGN.md 4 (C13)"),
+ "C14": seq("Proved: lifecycle-set recording is idempotent and duplicate-free, an entry is recorded only after a successful registration and always dropped by unregister, the before_handle_events iterator yields exactly the polled events of that source, the before_sleep loop cannot hit unreachable!() when entries resolve. Three repairs (fix: F1, F2, F15). PARTIAL: once-per-dispatch over whole histories via correspondence + oracle (BS/BH lines per dispatch, lifecycle set from verif_stats).", "DESIGN.md 4 (C14)"),
+ "C15": seq("Proved: a failing poller call changes neither source nor table; a failed registration records no lifecycle entry; an error from event processing leaves no pending action and nothing running; unresolved tokens are no-ops. Repairs: F2, F3, F15. Known findings F4 (C15_F4_refuted witness) and F11 (partial registration of multi-sub-source sources leaks fds) print KNOWN-FINDING. PARTIAL: as-if-never-made for whole histories via correspondence (shared-fd EEXIST/ENOENT faults at every step) + oracle.", "DESIGN.md 4 (C15)"),
+ "C16": seq("Proved on the model: register adds exactly (fd, interest, mode, key) and touches no other fd; unregister/Drop remove the fd; a released fd can be added again; a double add is refused. PARTIAL: 'always exactly the enabled sources' over whole histories is decided by comparing the kernel's own table (/proc/self/fdinfo/<epfd>: fd, mask, key) with the model after every E command and by an oracle on the real dumps. Async adapters are not covered by this check yet.", "DESIGN.md 4 (C16)"),
+})
+
 
 def main():
     props = [json.loads(l) for l in open(os.path.join(ROOT, "properties.jsonl"))]
